@@ -16,6 +16,9 @@ from ..core import Boom, HarnessError, render
 from ..scenario import dispose, outcome
 from .c10 import values_for
 
+import itertools
+
+_TWIN = itertools.count()
 PROPERTY = "C18"
 LEVEL = "exploration"
 RULE = (
@@ -59,7 +62,7 @@ def check_graph(g, spec, current, what):
             continue
         lines = label.split("\n")
         evs = frozenset(lines[0].split())
-        guards = frozenset(x.strip() for x in lines[1].strip()[1:-1].split(",")) if len(lines) > 1 and lines[1].strip() else frozenset()
+        guards = tuple(sorted(x.strip() for x in lines[1].strip()[1:-1].split(","))) if len(lines) > 1 and lines[1].strip() else ()
         edges[(src, dst, evs, guards)] += 1
     if n_init != 1:
         return "initial-edge", f"{what}: {n_init} edges leave the initial pseudo-node"
@@ -67,7 +70,7 @@ def check_graph(g, spec, current, what):
     for t in spec["trans"]:
         if t.get("internal"):
             continue
-        guards = frozenset(list(t.get("cond", [])) + ["!" + u for u in t.get("unless", [])])
+        guards = tuple(sorted(list(t.get("cond", [])) + ["!" + u for u in t.get("unless", [])]))  # each declared guard once
         exp[(ids[t["src"]], ids[t["dst"]], frozenset(t["events"]), guards)] += 1
     if edges != exp:
         missing = list((exp - edges).items())[:3]
@@ -105,11 +108,26 @@ def check_graph(g, spec, current, what):
 
 def run_case(case):
     spec = case["spec"]
+    cname = None
+    shadow_r = None
     try:
-        r = render(spec)
+        if case.get("shadow"):
+            # another class with the same module and class name was defined and drawn before: diagrams are per class object
+            cname = f"Twin{next(_TWIN)}"
+            shadow_r = render(case["shadow"], cname=cname, register=False)
+            DotGraphMachine(shadow_r.cls)()
+            try:
+                sh, _ = shadow_r.make(allow=True)
+                if not gen.is_async_spec(case["shadow"]):
+                    sh._graph()
+            except Exception:
+                pass
+        r = render(spec, cname=cname, register=cname is None)
     except InvalidDefinition as e:
         raise HarnessError(f"generator produced an invalid definition: {e}")
     labels = set()
+    if shadow_r is not None:
+        labels.add("same-named-class-drawn-before")
     try:
         bad = check_graph(DotGraphMachine(r.cls)(), spec, None, "class diagram")
         if bad:
@@ -127,6 +145,9 @@ def run_case(case):
             return send
 
         sm, _ = r.make(allow=True, Hh=Hh)
+        if "late0" in Hh.objs:
+            sm.add_listener(Hh.objs["late0"])  # a listener attached later, possibly exposing guard names too
+            labels.add("late-listener")
         if is_async:
             sm.activate_initial_state()
         visited = set()
@@ -167,8 +188,8 @@ NAMES = [None, None, "Draft", "In progress", "état", "a b", "x/y", "Done!"]
 
 @st.composite
 def cases(draw, tier):
-    provs = draw(st.sampled_from([("machine",), ("machine", "model"), ("machine", "model", "l0")]))
-    spec = draw(gen.machine_spec(max_states=5, providers=provs, async_mode=draw(st.sampled_from(["none", "none", "none", "all"])), sends=False,
+    provs = draw(st.sampled_from([("machine",), ("machine", "model"), ("machine", "model", "l0"), ("machine", "l0", "late0")]))
+    spec = draw(gen.machine_spec(max_states=5, providers=provs, late=tuple(p for p in provs if p.startswith("late")), async_mode=draw(st.sampled_from(["none", "none", "none", "all"])), sends=False,
                                  guard_kinds=("method", "property"), validators=draw(st.booleans())))
     n = len(spec["states"])
     for s in spec["states"]:
@@ -192,12 +213,23 @@ def cases(draw, tier):
 
         inline_state = any(c["scope"][0] == "state" and c["attach"] != "conv" for c in spec["cbs"]) or any("name" in s_ for s_ in spec["states"])
         spec["style"] = draw(plan(spec, draw(gen.add_bundle(spec)), inline_state))
+    if "late0" in provs:
+        in_unless = {g for t in spec["trans"] for g in t["unless"]}
+        for g in list(spec["guards"]):
+            if g["name"] not in in_unless and not g.get("async") and draw(st.booleans()) and not any(x["name"] == g["name"] and x["prov"] == "late0" for x in spec["guards"]):
+                for x in spec["guards"]:
+                    if x["name"] == g["name"]:
+                        x["async"] = False
+                spec["guards"].append({"name": g["name"], "prov": "late0", "kind": "method", "async": False, "multi": True})
     from ..core import cbid_of
 
     gids = [cbid_of(g) for g in spec.get("guards", [])]
     hist = draw(st.lists(st.sampled_from(spec["events"]), max_size=8 if tier == "quick" else 14))
     vals = {str(k + 1): {g: draw(st.booleans()) for g in gids} for k in range(len(hist))}
-    return {"spec": spec, "history": hist, "val": {g: draw(st.booleans()) for g in gids}, "vals": vals, "dot": tier == "thorough" and draw(st.integers(0, 9)) == 0}
+    case = {"spec": spec, "history": hist, "val": {g: draw(st.booleans()) for g in gids}, "vals": vals, "dot": tier == "thorough" and draw(st.integers(0, 9)) == 0}
+    if draw(st.integers(0, 3)) == 0:
+        case["shadow"] = draw(gen.machine_spec(max_states=4, providers=("machine",), async_mode="none", sends=False))
+    return case
 
 
 def strategy(tier):
